@@ -403,10 +403,20 @@ def D5(F, rep, LR):
             if not (cls == OHB or OHB in F.all_bases(cls)) or fn.get('kind') in ('ctor', 'dtor'):
                 continue
             nfn += 1
+            # a copy / move assignment takes the code over from the object it copies: that is what "the copy carries the same code" means (D8
+            # checks that it does so for every member)
+            copy_from = None
+            if fn.get('simple') == 'operator=' and len(fn.get('params', [])) == 1 and cls.split('::')[-1] in (fn['params'][0].get('t') or ''):
+                copy_from = fn['params'][0]['id']
             for n in walk(fn['body']):
                 t = None
                 if n.get('k') == 'Bin' and n.get('op') in ('=', '|=', '&=', '+=', '-='):
                     t = n['lhs']
+                    if copy_from is not None and n.get('op') == '=':
+                        r_ = strip_all_casts(n['rhs'])
+                        if isinstance(r_, dict) and r_.get('k') == 'Member' and r_.get('name') == 'objectType' and \
+                                (strip_all_casts(r_.get('base')) or {}).get('id') == copy_from:
+                            continue
                 elif n.get('k') == 'Call' and n.get('ck') == 'operator' and n.get('op') == '=' and n.get('args'):
                     t = n['args'][0]
                 if t is not None:
